@@ -983,17 +983,27 @@ Example start_names_example : start_names_ok (a_b html_cfg) (hevents_of example_
 Proof. unfold start_names_ok. cbn. repeat constructor. Qed.
 
 (* ================================================================================================
-   Special strings keep their content — except the whitespace-only / empty ones (known finding)
+   Special strings keep exactly their content, for every document
    ================================================================================================ *)
-Theorem special_content_kept b c s k : k <> 0%N ->
-  x_pres c = true \/ all_in (c_spaces b) s = false ->
-  xflush b c [s] (Some k) = [XStr k s].
+Theorem special_flush_kept b c s k : preformatted_cls k = true -> xflush b c [s] (Some k) = [XStr k s].
 Proof.
-  intros Hk H. unfold xflush. cbn [rev app concat]. rewrite app_nil_r.
-  replace (N.eqb k 0) with false by (symmetry; now apply N.eqb_neq).
-  destruct H as [H|H]; rewrite H; cbn [negb andb]; [reflexivity|]. now rewrite andb_false_r.
+  intros Hk. unfold xflush. cbn [rev app concat]. rewrite app_nil_r, Hk. cbn [negb andb].
+  replace (N.eqb k 0) with false; [reflexivity|].
+  destruct k as [|p]; [discriminate|reflexivity].
 Qed.
 
-Theorem ws_special_refuted :
-  exists s, expect html_cfg [DComment s] <> [XStr cls_comment s].
-Proof. exists []. vm_compute. discriminate. Qed.
+(* wherever a comment, CDATA section, doctype, declaration or processing instruction stands in a
+   document (any context c, any text gathered before it), it becomes one string of its class with
+   exactly the content written, right after the run of text before it *)
+Theorem special_content_kept cfg c pend d k s : special_of d = Some (k, s) ->
+  expect_node cfg c pend d = (xflush (a_b cfg) c pend None ++ [XStr k s], []).
+Proof.
+  intros H. destruct d; cbn [special_of] in H; try discriminate; inversion H; subst; clear H;
+    cbn [expect_node]; now rewrite special_flush_kept.
+Qed.
+
+Corollary special_alone_kept cfg d k s : special_of d = Some (k, s) -> expect cfg [d] = [XStr k s].
+Proof.
+  intros H. unfold expect. cbn [expect_list]. rewrite (special_content_kept _ _ _ _ _ _ H).
+  cbn [xflush app]. reflexivity.
+Qed.
